@@ -919,6 +919,41 @@ def r04_17(ctx, rep):
                "modifier is silently dropped", path=cfg.describe(w) if w else "")
 
 
+@SPEC.rule(
+    "R04.18",
+    "a handler that picks `the alternative that is present` names every alternative: where an ASTListener handler chooses among sub-rule "
+    "accessors with `ctx.a() or ctx.b() or ...`, the accessors are all the sub-rules the grammar rule of that context can consist of — a "
+    "forgotten alternative (`replaceable_element`) leaves None in the element list and the element out of its section",
+)
+def r04_18(ctx, rep):
+    R = "R04.18"
+    gp, rules, gctx, ms, generic = _facts(ctx, R)
+    n = 0
+    for name, fn in sorted(ms.items()):
+        if not name.startswith(("exit", "enter")) or len(fn.args.args) < 2:
+            continue
+        cname = name[4:] if name.startswith("exit") else name[5:]
+        info = gctx.get(cname + "Context")
+        if not info:
+            continue
+        prm = fn.args.args[1].arg
+        for b in ast.walk(fn):
+            if isinstance(b, ast.BoolOp) and isinstance(b.op, ast.Or) and len(b.values) >= 2 and all(
+                    isinstance(v, ast.Call) and isinstance(v.func, ast.Attribute) and is_name(v.func.value, prm) and not v.args for v in b.values):
+                named = {v.func.attr for v in b.values}
+                refs = set(info["refs"])
+                if not named <= refs:
+                    continue
+                n += 1
+                # the rule's alternatives that are a single sub-rule reference
+                rule = rules.get(info["rule"])
+                alts = {a.elems[0].value for a in rule.alts if len(a.elems) == 1 and a.elems[0].kind in ("rule", "ref")} if rule else set()
+                missing = sorted(alts - named) if named <= alts else []
+                rep.ob(R, PARSER + ":%s.%s" % (L, name), "the or-chain over %s names every alternative" % sorted(named), not missing,
+                       "the grammar rule `%s` also has the alternative(s) %s: for those the chain yields None" % (info["rule"], missing))
+    rep.note("%s: %d or-chains over alternative accessors inspected" % (R, n))
+
+
 # -- seeded variants ---------------------------------------------------------
 from ._mut import delete_stmt_where, replace_in_func  # noqa: E402
 
